@@ -21,9 +21,15 @@ fn distinct(conns: &[(usize, usize)]) -> bool {
 /// Forward clause + bookkeeping clause: the traced output equals the composition that applies every connection
 /// whose `connect` call returned normally (in call order); pairwise distinct sources/targets must be accepted.
 pub fn forward_case(name: &'static str, input: Shape, layers: Vec<L>, conns: Vec<(usize, usize)>, acc: Acc) -> Case {
+    forward_case_loop(name, input, layers, conns, acc, None)
+}
+
+/// `looped`: a loop connection (outof, into) declared BEFORE the skip connections; only the bookkeeping clause is checked
+/// then ("connections with pairwise distinct sources and targets are accepted") — what a loop computes is C17's subject
+pub fn forward_case_loop(name: &'static str, input: Shape, layers: Vec<L>, conns: Vec<(usize, usize)>, acc: Acc, looped: Option<(usize, usize)>) -> Case {
     let tag: Vec<String> = conns.iter().map(|(a, b)| format!("{}-{}", a, b)).collect();
     Case {
-        id: format!("C16/forward/{}/{}/{}", name, tag.join("+"), acc.name()),
+        id: format!("C16/forward/{}/{}/{}{}", name, tag.join("+"), acc.name(), match looped { Some((o, i)) => format!("/after-loop{}to{}", o, i), None => String::new() }),
         property: "C16",
         family: "Network::{connect,forward}",
         class: format!("{}-{}", if distinct(&conns) { "distinct" } else if conns.iter().any(|c| conns.iter().filter(|d| d.1 == c.1).count() > 1) { "shared-target" } else { "shared-source" }, acc.name()),
@@ -33,6 +39,9 @@ pub fn forward_case(name: &'static str, input: Shape, layers: Vec<L>, conns: Vec
             let mut net = build_net(input.clone(), &layers);
             symbolize(ctx, &mut net, "");
             net.set_accumulation(acc.lib(), Accumulation::Mean);
+            if let Some((outof, into)) = looped {
+                net.loopback(outof, into, 1, std::sync::Arc::new(|x| lit(1.0) / x), false);
+            }
             let mut accepted: Vec<(usize, usize)> = Vec::new();
             for (a, b) in conns.iter() {
                 if try_connect(ctx, &mut net, *a, *b) {
@@ -41,6 +50,9 @@ pub fn forward_case(name: &'static str, input: Shape, layers: Vec<L>, conns: Vec
             }
             if distinct(&conns) {
                 ctx.fact("distinct-connections-accepted", accepted.len() == conns.len(), format!("requested {:?}, accepted {:?}", conns, accepted));
+            }
+            if looped.is_some() {
+                return;
             }
             let x = input_tensor(ctx, &input, "x");
             let y = net.predict(&x);
@@ -200,6 +212,10 @@ pub fn cases(tier: Tier, seed: u64) -> Vec<Case> {
         out.push(gradient_case("dense-chain", Shape::Single(2), chain.clone(), conns));
     }
     out.push(gradient_case("conv-dense-dense", Shape::Triple(1, 2, 2), mixed.clone(), vec![(0, 1)]));
+    // skip connections declared after a loop connection, with targets inside / outside / at the ends of the loop range
+    for (conns, lp) in [(vec![(0usize, 1usize)], (2usize, 1usize)), (vec![(0, 2)], (2, 1)), (vec![(0, 1), (1, 3)], (2, 1)), (vec![(1, 3)], (2, 1)), (vec![(0, 2), (1, 3)], (2, 0))] {
+        out.push(forward_case_loop("dense-chain", Shape::Single(2), chain.clone(), conns, Acc::Add, Some(lp)));
+    }
     // source at a >= 1 with a different representation of the same element count than the target:
     // spatial 1x2x2 -> spatial 4x1x1, flat 4 -> spatial 1x2x2, spatial 1x2x2 -> flat 4
     let c1 = |f: usize, k: usize, p: usize| L::Conv(f, (k, k), (1, 1), (p, p), (1, 1), Linear);
